@@ -855,9 +855,10 @@ def generate_wide(ctx, g, seeds):
                     g.add("cycle", base, data, stack=64, fam="graphs-%d" % CYCLE_DESTS.index((entry, dest, tmpl, o)))
     # the same container many times over: k levels, each holding the level below twice (2^k leaves in print)
     for k in (12, 22, 30):
-        for off in range(4):
-            levels = "".join("m2{1r%d;2r%d;}" % (i + off, i + off) for i in range(k))
-            v = "a%d{m{}%s}" % (k + 1, levels)
+        for off in range(6):
+            # an object of an unregistered class is a map[string]interface{} that the reference list holds by value
+            levels = "".join("o0{r%d;r%d;}" % (i + off, i + off) for i in range(k))
+            v = 'a%d{c1"A"2{s1"a"s1"b"}o0{nn}%s}' % (k + 1, levels)
             for (entry, dest, tmpl, o) in CYCLE_DESTS[:7] + CYCLE_DESTS[12:]:
                 for si in range(4):
                     data = lat(tmpl.replace("%v", v).replace("%s", "r%d;" % si))
@@ -1128,8 +1129,14 @@ def run(ctx):
     # megabytes, well under a second each), one per (destination, tag)
     def exp_rank(c):
         mm = re.search(rb"[eEpP][+-]?(\d+)", bytes.fromhex(c["hex"]))
-        # math/big refuses a rational's exponent beyond 10^6 by itself: the costly texts are just below
-        return (abs(len(mm.group(1)) - (7 if b'"' in bytes.fromhex(c["hex"]) else 9)) if mm else 99, len(c["hex"]), c["hex"])
+        # math/big refuses a rational's exponent beyond 10^6 by itself: the costly texts are at and just below it
+        import math
+        if not mm:
+            return (99.0, len(c["hex"]), c["hex"])
+        v = int(mm.group(1))
+        if b'"' in bytes.fromhex(c["hex"]):
+            return (abs(math.log10(max(v, 1)) - 6) + (10 if v > 10 ** 6 else 0), len(c["hex"]), c["hex"])
+        return (abs(math.log10(max(v, 1)) - 8), len(c["hex"]), c["hex"])
     be_seen, n_be = set(), {True: 0, False: 0}
     for c in sorted([c for c in heavy if model[c["id"]]["class"] == "panic:big-exp"], key=exp_rank):
         txt = b'"' in bytes.fromhex(c["hex"])
